@@ -91,6 +91,7 @@ func main() {
 		os.Exit(3)
 	}
 	rtPath := modPath + "/zzverifrt"
+	noShim := os.Getenv("VERIF_NOSHIM") != ""
 
 	overlay := map[string]string{}
 	varID := map[types.Object]int{}
@@ -174,6 +175,30 @@ func main() {
 					}
 				}
 			}
+
+			// sync and sync/atomic are redirected to the scheduler-aware shims
+			if !noShim {
+				for _, is := range f.Imports {
+					path := strings.Trim(is.Path.Value, `"`)
+					shim := ""
+					switch path {
+					case "sync":
+						shim = rtPath + "/vsync"
+					case "sync/atomic":
+						shim = rtPath + "/vatomic"
+					}
+					if shim == "" {
+						continue
+					}
+					name := filepath.Base(path)
+					if is.Name != nil {
+						name = is.Name.Name
+					}
+					add(off(is.Pos()), off(is.End()), name+` "`+shim+`"`)
+					stats["shimmed_imports"]++
+				}
+			}
+			needRT := false
 
 			var stack []ast.Node
 			var funcNames []string
@@ -366,7 +391,14 @@ func main() {
 			if len(edits) == 0 {
 				continue
 			}
-			add(off(f.Name.End()), off(f.Name.End()), "\nimport verifrt \""+rtPath+"\"\n")
+			for _, e := range edits {
+				if strings.Contains(e.text, "verifrt.") {
+					needRT = true
+				}
+			}
+			if needRT {
+				add(off(f.Name.End()), off(f.Name.End()), "\nimport verifrt \""+rtPath+"\"\n")
+			}
 			// apply from the end backwards; among inserts at one offset, later-created first so that
 			// the earlier-created text ends up first in the file
 			sort.SliceStable(edits, func(i, j int) bool {
@@ -469,16 +501,24 @@ func main() {
 		// imports needed by the replayed initialisers: reuse the import sets of the package's files
 		body := sb.String()
 		body = addImports(body, p)
+		if !noShim {
+			body = strings.Replace(body, `import sync "sync"`, `import sync "`+rtPath+`/vsync"`, 1)
+			body = strings.Replace(body, `import atomic "sync/atomic"`, `import atomic "`+rtPath+`/vatomic"`, 1)
+		}
 		must(os.WriteFile(dst, []byte(body), 0o644))
 		overlay[filepath.Join(dir, "zz_verif_state.go")] = dst
 		stats["vars"] += nvars
 	}
 
 	overlay[filepath.Join(repo, "zzverifrt", "rt.go")] = rtSrc
+	overlay[filepath.Join(repo, "zzverifrt", "tick.go")] = filepath.Join(filepath.Dir(rtSrc), "tick.go")
+	overlay[filepath.Join(repo, "zzverifrt", "tick_race.go")] = filepath.Join(filepath.Dir(rtSrc), "tick_race.go")
+	overlay[filepath.Join(repo, "zzverifrt", "vsync", "vsync.go")] = filepath.Join(filepath.Dir(rtSrc), "vsync", "vsync.go")
+	overlay[filepath.Join(repo, "zzverifrt", "vatomic", "vatomic.go")] = filepath.Join(filepath.Dir(rtSrc), "vatomic", "vatomic.go")
 	js, _ := json.MarshalIndent(map[string]any{"Replace": overlay}, "", " ")
 	must(os.WriteFile(filepath.Join(out, "overlay.json"), js, 0o644))
 	meta, _ := json.MarshalIndent(map[string]any{
-		"module": modPath, "vars": vars, "sites": sites, "accesses": accs, "stats": stats, "warnings": warnings,
+		"module": modPath, "vars": vars, "sites": sites, "accesses": accs, "stats": stats, "warnings": warnings, "shim": !noShim,
 	}, "", " ")
 	must(os.WriteFile(filepath.Join(out, "instr.json"), meta, 0o644))
 	fmt.Printf("instr: module=%s vars=%d sites=%d stats=%v files=%d warnings=%d\n", modPath, len(vars), len(sites), stats, len(overlay), len(warnings))
